@@ -12,6 +12,14 @@ From Arche Require Import Model.Base Model.World Model.Ops Gen.PkgFacts Proofs.R
 Theorem C13_no_map_range : map_ranges = nil.
 Proof. reflexivity. Qed.
 
+(** The CURRENT source starts no goroutine, has no select statement, and imports none of
+    sync, sync/atomic, time, math/rand, crypto/rand, runtime, os (regenerated fact tables):
+    neither scheduling nor time nor randomness nor the environment can reach the results. *)
+Theorem C13_no_goroutines : go_stmts = nil.
+Proof. reflexivity. Qed.
+Theorem C13_no_scheduling_time_random_imports : nondet_imports = nil.
+Proof. reflexivity. Qed.
+
 Theorem C13_step_deterministic : forall (w1 w2 : world) (ops : list op),
   w1 = w2 -> run w1 ops = run w2 ops /\
   (forall o, step (run w1 ops) o = step (run w2 ops) o).
@@ -30,6 +38,8 @@ Theorem C13_behaviour_depends_on_abstract_state_only : forall ops w1 w2 A,
 Proof. exact same_spec_same_behaviour. Qed.
 
 Print Assumptions C13_no_map_range.
+Print Assumptions C13_no_goroutines.
+Print Assumptions C13_no_scheduling_time_random_imports.
 Print Assumptions C13_behaviour_depends_on_abstract_state_only.
 Print Assumptions C13_step_deterministic.
 
